@@ -199,7 +199,10 @@ Proof.
       * apply IH. split; [exact Hb|]. split; [exact Hw|]. split; [exact Ho|].
         destruct Hr as [Hr | (_ & _ & T)]; [left; exact Hr|].
         cbn [trailing_decision] in T. rewrite Ett, Etx in T. cbn [starts_with_ws] in T. discriminate T.
-      * destruct (escape_cdata_val (c0 :: cs)) as [esc use]. cbn [out_items map out_item].
+      * destruct (escape_cdata_val (c0 :: cs)) as [esc use].
+        assert (Eit : out_item (if use then PCText esc (c0 :: cs) else PCData (data t) (c0 :: cs)) = IR (c0 :: cs))
+          by (destruct use; reflexivity).
+        cbn [out_items map]. rewrite Eit.
         assert (Hne : c0 :: cs <> []) by discriminate.
         assert (HbO : b = false -> O = []) by (intros E; apply Hb; exact E).
         assert (HbI : b = false -> I = []) by (intros E; apply Hb; exact E).
